@@ -57,7 +57,7 @@ pub fn run(ctx: &Ctx, rep: &mut Report) {
         let hub_addr = b"axelar1hub".to_vec();
         let mut w = ItsWorld::new(&mut rng, b"stellar", &hub_addr, 4);
         w.trust(b"ethereum");
-        w.trust(b"avalanche");
+        w.trust(b"Avalanche-Fuji");
         w.trust(b"gone");
         {
             let its = w.its.clone();
@@ -503,7 +503,7 @@ pub fn run(ctx: &Ctx, rep: &mut Report) {
                 "trust-change" => {
                     let chain: Vec<u8> = match &scripted {
                         Some((_, c)) => c.clone(),
-                        None => rng.pick(&[b"ethereum".to_vec(), b"avalanche".to_vec(), b"axelar".to_vec(), b"bsc".to_vec()]).clone(),
+                        None => rng.pick(&[b"ethereum".to_vec(), b"Avalanche-Fuji".to_vec(), b"axelar".to_vec(), b"BSC".to_vec()]).clone(),
                     };
                     let now = w.model.trusted.contains(&chain);
                     // half of the removals are scripted: a valid transfer toward the chain, the
